@@ -3,7 +3,7 @@
 usage: seed_matrix.py [--tier quick|thorough] [seed ...]"""
 import json, os, re, subprocess, sys, time
 
-args = sys.argv[1:]
+args = [a for a in sys.argv[1:] if a != "--force"]
 tier = "quick"
 if "--tier" in args:
     i = args.index("--tier"); tier = args[i + 1]; del args[i:i + 2]
@@ -11,7 +11,10 @@ seeds = args or sorted(d for d in os.listdir("/verif/seeded") if re.match(r"C\d+
 EXTRA = {"C04-2": ["C09"], "C07-1": ["C09"], "C03-1": ["C09"], "C11-2": ["C01"]}
 resfile = "/verif/seeded/results-%s.json" % tier
 results = json.load(open(resfile)) if os.path.exists(resfile) else {}
+force = "--force" in sys.argv
 for s in seeds:
+    if s in results and not force and not args:
+        continue
     checks = [s.split("-")[0]] + EXTRA.get(s, [])
     t0 = time.time()
     p = subprocess.run(["/venv/bin/python", "/verif/tools/run_seed.py", s] + checks + ["--tier", tier],
